@@ -46,6 +46,10 @@ def configs(tier):
         out.append({'fn': 'compute_burst_features_amp', 'rows': 2, 'n': 6, 'variant': v})
     out.append({'fn': 'compute_burst_features_cycles', 'rows': 3, 'n': 7 if q else 8})
     out.append({'fn': 'compute_burst_fraction', 'rows': 2, 'n': 6})
+    out.append({'fn': 'compute_burst_fraction', 'rows': 2, 'n': 6, 'fk': 'detector_options'})
+    out.append({'fn': 'compute_features', 'method': 'amp', 'rows': 1, 'n': 4, 'variant': 'nested_fk', 'centre': 'peak'})
+    for L in (0, 1):
+        out.append({'fn': 'compute_shape_features', 'n': 7 - 2 * L if q else 8 - 2 * L, 'L': L, 'fk': 'n_cycles', 'centre': 'trough'})
     for rows in (3, 4):
         out.append({'fn': 'recompute_edges', 'rows': rows})
     for rows in (1, 2, 3):
@@ -227,6 +231,8 @@ def run(ctx, cfg):
                 bk['min_n_cycles'] = m2
             if variant == 'burst_amp':
                 bk['amp_threshes'] = (0.5, 1.5)
+            if variant == 'nested_fk':
+                bk['filter_kwargs'] = {'n_cycles': 3, 'magnitude_type': 'amplitude', 'avg_type': 'median'}
         fek = {'filter_kwargs': {'n_cycles': 3}, 'boundary': 0}
         sig = np.array(list(x), dtype=float)
         try:
@@ -247,8 +253,8 @@ def run(ctx, cfg):
         if fn == 'compute_shape_features':
             f = ctx.mod('bycycle.features.shape').compute_shape_features
             fek = {'filter_kwargs': fk, 'pad': L > 0}
-            check_call(ctx, f, [sig, 500.0, (8.0, 12.0)], dict(find_extrema_kwargs=fek),
-                       ['sig', 'fs', 'f_range', 'find_extrema_kwargs'], may_raise=True)
+            check_call(ctx, f, [sig, 500.0, (8.0, 12.0)], dict(center_extrema=cfg.get('centre', 'peak'), find_extrema_kwargs=fek),
+                       ['sig', 'fs', 'f_range', 'center_extrema', 'find_extrema_kwargs'], may_raise=True)
         elif fn == 'compute_cyclepoints':
             f = ctx.mod('bycycle.features.cyclepoints').compute_cyclepoints
             check_call(ctx, f, [sig, 500.0, (8.0, 12.0)], dict(filter_kwargs=fk, pad=L > 0),
@@ -288,6 +294,8 @@ def run(ctx, cfg):
                        ['df_shape_features', 'sig', 'burst_method'])
         else:
             fk = {'n_cycles': 3}
+            if cfg.get('fk') == 'detector_options':
+                fk.update(magnitude_type='amplitude', avg_type='median')
             check_call(ctx, fb.compute_burst_fraction, [df, sig, 500.0, (8.0, 12.0)], dict(filter_kwargs=fk),
                        ['df_samples', 'sig', 'fs', 'f_range', 'filter_kwargs'])
         return
